@@ -376,10 +376,21 @@ class AbsEval(ConstEval):
             obj = env.get("self")
             args = self.eval_args(e, env, mod)
             if isinstance(obj, AObj) and obj.cls_key is not None:
-                for k in self.M.mro(obj.cls_key)[1:]:
+                mro = self.M.mro(obj.cls_key)
+                # the search starts after the class that defines the method being executed (not after the object's own class)
+                start = 1
+                cur = self.__dict__.get("_fstack") or []
+                if cur:
+                    for i_, k in enumerate(mro):
+                        c_ = self.M.classes.get(k)
+                        if c_ is not None and any(f_.node is cur[-1] for f_ in c_.methods.values()):
+                            start = i_ + 1
+                            break
+                kw = {k_.arg: self.eval(k_.value, env, mod) for k_ in e.keywords if k_.arg}
+                for k in mro[start:]:
                     m = self.M.classes[k].methods.get(e.func.attr) if k in self.M.classes else None
                     if m is not None:
-                        return self.call_func(FuncRef(m.mod, m.node), [obj] + args)
+                        return self.call_func(FuncRef(m.mod, m.node), [obj] + args, kw)
             return None
         if isinstance(e.func, ast.Attribute):
             # method on an abstract value
@@ -464,6 +475,9 @@ class AbsEval(ConstEval):
         except BuiltinRaised as ex:
             raise AbsRaise(ex.cls, str(ex))
         except NotConstant as ex:
+            if str(ex).startswith("call of <opaque external ") and self.__dict__.get("external_calls_opaque"):
+                # a library constructor / function (asyncio.Future(), ...): an unknown library value with no effect on repository objects
+                return Opaque("external " + str(ex)[len("call of <opaque external "):].rstrip(">") + "()")
             if "opaque argument" in str(ex) or "builtin failed" in str(ex):
                 raise NotConstant(f"call {ftxt} with abstract arguments is outside the interpreter's summaries")
             raise
@@ -655,8 +669,17 @@ class AbsEval(ConstEval):
             v = self.eval(s.exc, env, mod) if not isinstance(s.exc, ast.Call) else None
             cls = ast.unparse(s.exc.func if isinstance(s.exc, ast.Call) else s.exc).split(".")[-1]
             if isinstance(s.exc, ast.Call):
+                fname = s.exc.func.id if isinstance(s.exc.func, ast.Name) else None
+                if fname and self.M.funcs.get(f"{mod}.{fname}") is not None:
+                    # raise helper(...): the exception object a repository function builds
+                    hv = self.eval(s.exc, env, mod)
+                    if isinstance(hv, tuple) and len(hv) == 2 and hv[0] == "exception":
+                        raise AbsRaise(hv[1])
+                    raise NotConstant(f"raise of the value of {fname}(), which is not a recognised exception object")
                 for a in s.exc.args:
                     self.eval(a, env, mod)
+            elif isinstance(v, tuple) and len(v) == 2 and v[0] == "exception":
+                cls = v[1]
             raise AbsRaise(cls)
         if isinstance(s, ast.Assert):
             if not self.truth(self.eval(s.test, env, mod)):
@@ -709,6 +732,14 @@ class AbsEval(ConstEval):
                         continue
                     self.exec_block(case.body, env2, mod)
                     return
+            return
+        if isinstance(s, ast.With) and all(isinstance(it.context_expr, ast.Call) and isinstance(it.context_expr.func, ast.Name) and it.context_expr.func.id in ("memoryview", "nullcontext")
+                                            for it in s.items):
+            for it in s.items:
+                v = self.eval(it.context_expr, env, mod) if it.context_expr.func.id == "memoryview" else (self.eval(it.context_expr.args[0], env, mod) if it.context_expr.args else None)
+                if it.optional_vars is not None:
+                    self.assign(it.optional_vars, v, env, mod)
+            self.exec_block(s.body, env, mod)
             return
         if isinstance(s, (ast.With, ast.AsyncWith)):
             suppressed = []
@@ -818,6 +849,11 @@ class AbsEval(ConstEval):
             if isinstance(base, AObj):
                 base.attrs[tgt.attr] = val
                 return
+            if isinstance(base, Opaque) and base.what.startswith("class ") and "." in base.what[6:]:
+                # a class attribute rebound at run time (instance counters, ...): kept per interpreter state, read back by class_const
+                cm, cn = base.what[6:].split(".", 1)
+                self.__dict__.setdefault("_cc_memo", {})[(cm, cn, tgt.attr)] = val
+                return
         return super().assign(tgt, val, env, mod)
 
     def apply_value(self, f, args, mod):
@@ -881,7 +917,12 @@ class AbsEval(ConstEval):
         h = self.func_hooks.get((f.mod, f.node.name))
         if h is not None:
             return h(list(args), dict(kw or {}))
-        return super().call_func(f, args, kw)
+        st = self.__dict__.setdefault("_fstack", [])
+        st.append(f.node)
+        try:
+            return super().call_func(f, args, kw)
+        finally:
+            st.pop()
 
     # ------------------------------------------------------------------ entry
     def apply(self, fn, args):
